@@ -8,7 +8,9 @@ T_ARK = 'arkworks crates (ark-ff, ark-ec, ark-serialize) wherever /repo delegate
 
 def C02(t0):
     from . import curve
-    jobs = [('min decode algebra', curve.check_decode_algebra, ('min',)), ('ark decode algebra', curve.check_decode_algebra, ('ark',))]
+    from . import wiring
+    jobs = [('min decode algebra', curve.check_decode_algebra, ('min',)), ('ark decode algebra', curve.check_decode_algebra, ('ark',)),
+            ('min decode funnel', wiring.check_decode_funnel, ('min',)), ('ark decode funnel', wiring.check_decode_funnel, ('ark',))]
     curve.items_for('min'); curve.items_for('ark')
     obs = par.run_groups(jobs)
     return finish('C02', obs, t0, level='proof',
@@ -26,7 +28,9 @@ def C03(t0):
     _warm()
     jobs = []
     for b in ('min', 'ark'):
-        jobs += [(f'{b} encode algebra', curve.check_encode_algebra, (b,)), (f'{b} encode invariance', curve.check_encode_invariance, (b,))]
+        from . import wiring
+        jobs += [(f'{b} encode algebra', curve.check_encode_algebra, (b,)), (f'{b} encode invariance', curve.check_encode_invariance, (b,)),
+                 (f'{b} compress/serialise forms', wiring.check_compress_forms, (b,))]
     obs = par.run_groups(jobs)
     return finish('C03', obs, t0, level='proof',
         functions=['Element::vartime_compress_to_field (ark_curve/encoding.rs, min_curve/element.rs)', 'sign::Sign::abs', 'fields::fq::ops operator forms reached'],
@@ -38,7 +42,8 @@ def C03(t0):
 def C07(t0):
     from . import curve
     _warm()
-    jobs = [(f'{b} elligator', curve.check_elligator, (b,)) for b in ('min', 'ark')]
+    from . import wiring
+    jobs = [(f'{b} elligator', curve.check_elligator, (b,)) for b in ('min', 'ark')] + [(f'{b} hash_to_curve wiring', wiring.check_hash_to_curve, (b,)) for b in ('min', 'ark')]
     obs = par.run_groups(jobs)
     return finish('C07', obs, t0, level='proof',
         functions=['Element::elligator_map (ark_curve/elligator.rs, min_curve/element.rs)', 'ark_curve::constants::{ONE,TWO,ZETA} initialisers', 'TECurveConfig::COEFF_A/COEFF_D'],
